@@ -49,6 +49,7 @@ async def map_async_iterable(
     If the inner iterator supports an `aclose()` method, it will be called when
     the generator finishes or closes.
     """
-    async with aclosing(iterable) as items:
+    # close the iterator that is iterated (an iterable need not be its own iterator)
+    async with aclosing(iterable.__aiter__()) as items:
         async for item in items:
             yield await callback(item)
